@@ -69,7 +69,14 @@ struct Node {
     depth: u32,
 }
 
-fn history(nodes: &[Node], mut id: u32) -> Vec<Op> {
+/// Cfg::prefill followed by the BFS-shortest operations leading to state `id`
+fn history(prefill: &[Op], nodes: &[Node], id: u32) -> Vec<Op> {
+    let mut h = prefill.to_vec();
+    h.extend(history_tail(nodes, id));
+    h
+}
+
+fn history_tail(nodes: &[Node], mut id: u32) -> Vec<Op> {
     let mut h = Vec::new();
     while id != 0 {
         let n = &nodes[id as usize];
@@ -104,6 +111,7 @@ struct StateOut {
 pub fn explore(driver: &dyn Driver, props: &BTreeSet<&'static str>, want: &Wants, limits: &Limits) -> Explore {
     let cfg = driver.cfg().clone();
     let muts = mutators(&cfg);
+    let prefill: Vec<Op> = cfg.prefill.clone();
     let t0 = Instant::now();
     let mut ex = Explore { label: cfg.label(), mutators: muts.len(), observers: if want.observers { observers(&cfg).len() } else { 0 }, ..Default::default() };
 
@@ -112,7 +120,7 @@ pub fn explore(driver: &dyn Driver, props: &BTreeSet<&'static str>, want: &Wants
     let mut seen: HashMap<Vec<u8>, u32> = HashMap::new();
 
     // initial state
-    let s0 = driver.state(&[], want);
+    let s0 = driver.state(&prefill, want);
     let snap0 = match &s0.snap {
         Some(s) => s.clone(),
         None => {
@@ -137,7 +145,7 @@ pub fn explore(driver: &dyn Driver, props: &BTreeSet<&'static str>, want: &Wants
             break;
         }
         for chunk in frontier.clone().chunks(2048) {
-            let inputs: Vec<(u32, Vec<Op>)> = chunk.iter().map(|id| (*id, history(&nodes, *id))).collect();
+            let inputs: Vec<(u32, Vec<Op>)> = chunk.iter().map(|id| (*id, history(&prefill, &nodes, *id))).collect();
             let outs: Vec<StateOut> = inputs
                 .par_iter()
                 .map(|(id, hist)| {
@@ -168,7 +176,14 @@ pub fn explore(driver: &dyn Driver, props: &BTreeSet<&'static str>, want: &Wants
                         ));
                         return o;
                     }
-                    for op in &muts {
+                    let rel;
+                    let alphabet: &Vec<Op> = if cfg.relative {
+                        rel = relative_ops(&cfg, pre);
+                        &rel
+                    } else {
+                        &muts
+                    };
+                    for op in alphabet {
                         let t = driver.trans(hist, *op, want);
                         o.executions += 1;
                         o.transitions += 1;
@@ -264,7 +279,7 @@ pub fn explore(driver: &dyn Driver, props: &BTreeSet<&'static str>, want: &Wants
         let results: Vec<(u64, Option<(Finding, Vec<Op>, Op)>)> = dups
             .par_iter()
             .map(|(sid, op, tid)| {
-                let mut h = history(&nodes, *sid);
+                let mut h = history(&prefill, &nodes, *sid);
                 h.push(*op);
                 let fo = match fanout.get(*tid as usize) {
                     Some(f) => f,
@@ -286,7 +301,7 @@ pub fn explore(driver: &dyn Driver, props: &BTreeSet<&'static str>, want: &Wants
                                 h,
                                 t.ret,
                                 t.cb_log,
-                                history(&nodes, *tid),
+                                history(&prefill, &nodes, *tid),
                                 Some(ret2),
                                 cb2
                             ),
@@ -296,7 +311,7 @@ pub fn explore(driver: &dyn Driver, props: &BTreeSet<&'static str>, want: &Wants
                 }
                 // deeper levels: both histories are executed side by side
                 if limits.adequacy_depth > 1 {
-                    let hb = history(&nodes, *tid);
+                    let hb = history(&prefill, &nodes, *tid);
                     let mut level: Vec<(Vec<Op>, Vec<Op>)> = muts.iter().map(|m| { let mut a = h.clone(); a.push(*m); let mut b = hb.clone(); b.push(*m); (a, b) }).collect();
                     for _d in 1..limits.adequacy_depth {
                         let mut next = vec![];
@@ -348,7 +363,7 @@ pub fn explore(driver: &dyn Driver, props: &BTreeSet<&'static str>, want: &Wants
     }
 
     if limits.collect_histories {
-        ex.histories = (0..nodes.len() as u32).map(|i| history(&nodes, i)).collect();
+        ex.histories = (0..nodes.len() as u32).map(|i| history(&prefill, &nodes, i)).collect();
     }
     ex.states = nodes.len();
     ex.max_depth = nodes.iter().map(|n| n.depth as usize).max().unwrap_or(0);
@@ -359,7 +374,7 @@ pub fn explore(driver: &dyn Driver, props: &BTreeSet<&'static str>, want: &Wants
     // a few explored histories, written out
     let n = nodes.len() as u32;
     for id in [n / 3, (2 * n) / 3, n - 1] {
-        let h = history(&nodes, id);
+        let h = history(&prefill, &nodes, id);
         ex.samples.push(format!("{:?}", h));
     }
     ex
